@@ -189,6 +189,7 @@ pub struct Pending {
     pub fut: BoxFut<'static, ZmqResult<PeerIdentity>>,
     pub waker: Arc<CountWaker>,
     pub polls: usize,
+    pub seen_wakes: usize,
 }
 
 pub struct Env {
@@ -199,6 +200,8 @@ pub struct Env {
     pub waker: Arc<CountWaker>,
     pub seq: u64,
     pub partial_sends: BTreeMap<i64, (Vec<u8>, usize, Vec<String>)>,
+    /// connection on which the library last wrote a complete application message
+    pub last_wire_conn: Option<i64>,
 }
 
 pub enum Driven<T> {
@@ -277,7 +280,7 @@ pub fn sanitize(v: &mut Value) {
 
 impl Env {
     pub fn new(backend: Arc<dyn MultiPeerBackend>) -> Env {
-        Env { backend, conns: BTreeMap::new(), attaching: BTreeMap::new(), out: vec![], waker: CountWaker::new(), seq: 0, partial_sends: BTreeMap::new() }
+        Env { backend, conns: BTreeMap::new(), attaching: BTreeMap::new(), out: vec![], waker: CountWaker::new(), seq: 0, partial_sends: BTreeMap::new(), last_wire_conn: None }
     }
     pub fn ev(&mut self, mut v: Value) {
         sanitize(&mut v);
@@ -302,7 +305,10 @@ impl Env {
                     match it {
                         rc::WItem::Greeting(_) => self.ev(json!({"ev":"wire","c":c,"k":"greeting"})),
                         rc::WItem::Command(b) => self.ev(json!({"ev":"wire","c":c,"k":"cmd","b":rc::hex(b)})),
-                        rc::WItem::Message(m) => self.ev(json!({"ev":"wire","c":c,"k":"msg","m":rc::mdesc(m)})),
+                        rc::WItem::Message(m) => {
+                            self.last_wire_conn = Some(c);
+                            self.ev(json!({"ev":"wire","c":c,"k":"msg","m":rc::mdesc(m)}))
+                        }
                     }
                 }
                 self.conns.get_mut(&c).unwrap().scanned = scanned + p.consumed;
@@ -382,7 +388,7 @@ impl Env {
                 }
                 self.conns.insert(c, Conn { to_lib: to_lib.clone(), from_lib: from_lib.clone(), scanned: 0, attached: false, ident: None, rel_logged: (false, false) });
                 let fut: BoxFut<'static, ZmqResult<PeerIdentity>> = Box::pin(zeromq::__verif::attach(self.backend.clone(), R(to_lib), W(from_lib)));
-                self.attaching.insert(c, Pending { fut, waker: CountWaker::new(), polls: 0 });
+                self.attaching.insert(c, Pending { fut, waker: CountWaker::new(), polls: 0, seen_wakes: 0 });
                 self.ev(json!({"ev":"attach_call","c":c,"ptype":op.get("ptype").cloned().unwrap_or(Value::Null),"ident":op.get("ident").cloned().unwrap_or(Value::Null)}));
                 if op.get("first").is_some() {
                     self.ev(json!({"ev":"peer_wrote","c":c,"m":rc::mdesc(&frames_of(&op["first"])),"with_handshake":true}));
@@ -414,6 +420,15 @@ impl Env {
                 let b = rc::enc_msg(&frames);
                 self.push_cut(c, &b, op.get("cuts"));
                 self.ev(json!({"ev":"peer_wrote","c":c,"m":rc::mdesc(&frames)}));
+            }
+            "preply" => {
+                // the peer that received the library's last message answers (no-op if nothing was written yet)
+                if let Some(lc) = self.last_wire_conn {
+                    let frames = frames_of(&op["m"]);
+                    let b = rc::enc_msg(&frames);
+                    self.push_cut(lc, &b, op.get("cuts"));
+                    self.ev(json!({"ev":"peer_wrote","c":lc,"m":rc::mdesc(&frames)}));
+                }
             }
             "pbegin" => {
                 // first part of a message (per-mille of its encoding); completed by "pfinish"
@@ -494,8 +509,18 @@ impl Env {
             _ => return false,
         }
         sim::settle().await;
+        self.redrive_attaching().await;
         self.scan();
         true
+    }
+
+    /// a suspended handshake whose waker fired is polled again, as an executor would (e.g. it was waiting for a
+    /// lock that has been handed to it); never leave a woken future unpolled
+    pub async fn redrive_attaching(&mut self) {
+        let ids: Vec<i64> = self.attaching.iter().filter(|(_, p)| p.waker.count() > p.seen_wakes).map(|(c, _)| *c).collect();
+        for c in ids {
+            self.attach_drive(c).await;
+        }
     }
 
     fn push_cut(&mut self, c: i64, b: &[u8], cuts: Option<&Value>) {
@@ -536,6 +561,7 @@ impl Env {
             }
             Driven::Stalled => {
                 self.ev(json!({"ev":"attach_pending","c":c,"polls":p.polls,"gate":gate().reached.load(Ordering::SeqCst)}));
+                p.seen_wakes = p.waker.count();
                 self.attaching.insert(c, p);
             }
         }
@@ -660,6 +686,7 @@ pub async fn run_scenario(sc: &Value) -> Vec<Value> {
                 }
             };
             base = if single { before } else { w.count() };
+            env.redrive_attaching().await;
             env.scan();
             let what = match &the_call {
                 Call::Recv(_) => "recv",
@@ -750,12 +777,15 @@ pub async fn run_scenario(sc: &Value) -> Vec<Value> {
         }
         drop(the_call);
         sim::settle().await;
+        env.redrive_attaching().await;
         env.scan();
     }
     sim::settle().await;
     env.scan();
     let parts = env.partials();
     env.ev(json!({"ev":"quiescent","pending":"none","partials":parts,"final":true}));
+    gate().set_hold(None);
+    env.attaching.clear(); // abandoned handshakes are dropped before the socket
     drop(sock);
     sim::settle().await;
     env.scan();
